@@ -110,26 +110,30 @@ def ob_sched(ni: int, pos0: int, pos1: int, pk: int) -> bool:
         return H.verdict(not probs)
 
 
-def ob_auto(n_tasks: int, d0: int, d1: int, d2: int, d3: int, pick0: int) -> bool:
+def ob_auto(n_tasks: int, slow_from: int, slow_len: int, slow_kind: int, pick0: int) -> bool:
     """
-    pre: 1 <= n_tasks <= 12
-    pre: 0 <= d0 <= 2 and 0 <= d1 <= 2 and 0 <= d2 <= 2 and 0 <= d3 <= 2
+    pre: 0 <= n_tasks <= 5
+    pre: 0 <= slow_from <= 15 and 1 <= slow_len <= 3
+    pre: 0 <= slow_kind <= 1
     pre: 0 <= pick0 <= 1
     post: _
     """
     H.enter()
-    DUR = [0.0, 0.3, 30.0]
-    n = H.select(n_tasks, 1, 12)
-    ds = [DUR[H.select(d, 0, 2)] for d in (d0, d1, d2, d3)]
+    # task durations drive the real AutoBatchingMixin heuristic: a run of slow tasks anywhere in the input makes the
+    # batch size shrink after it has grown
+    n = [1, 5, 9, 13, 17, 24][H.select(n_tasks, 0, 5)]
+    sf, sl = H.select(slow_from, 0, 15), H.select(slow_len, 1, 3)
+    dv = [0.3, 30.0][H.select(slow_kind, 0, 1)]
     pk = H.select(pick0, 0, 1)
     with H.native():
         params = dict(H.PARAMS)
-        params["durations"] = ds + [0.0] * 20
+        ds = [dv if sf <= i < sf + sl else 0.0 for i in range(30)]
+        params["durations"] = ds
         cfg = _cfg(params, n)
         o = parlib.run(cfg, dict(preempt=[], picks=[pk]))
         probs = check_outcome(o, n, cfg["return_as"])
         for m in probs:
-            H.note("auto n_tasks=%d durations=%r: %s" % (n, ds, m))
+            H.note("auto n_tasks=%d durations=%r: %s" % (n, ds[:n], m))
         return H.verdict(not probs)
 
 
@@ -243,7 +247,7 @@ def obligations(tier, seed):
         obs.append({"name": "auto/%s" % be, "fn": "ob_auto", "mode": "S",
                     "params": {"backend": be, "return_as": "list", "pre_dispatch": "2*n_jobs", "batch_size": "auto"},
                     "timeout": 900,
-                    "bounds": "batch_size='auto': 1..12 tasks, first 4 task durations in {0, 0.3 s, 30 s}, 2 completion picks"})
+                    "bounds": "batch_size='auto': 1/5/9/13/17/24 tasks, a run of 1..3 slow tasks (0.3 s or 30 s) starting at 0..15, 2 completion picks"})
     obs.append({"name": "counters", "fn": "ob_counters", "mode": "S", "timeout": 600,
                 "bounds": "dispatch_one_batch: input length 0..20, n_jobs 1..4, batch_size 1..4, lookahead or tail iterator"})
     return obs
